@@ -227,10 +227,15 @@ JudgeReplaceUnd(e) ==
                                      /\ UNION {DelSet(ms[a], ret, rall) : a \in s} = missing}
       overlap(s) == Overlapping([j \in DOMAIN SeqOfSet(s) |-> ms[SeqOfSet(s)[j]]], ret, rall)
       fits(a) == {g.b : g \in {g \in Range(e.und) : g.a = a /\ GramOK(SP, RP, Iseq, g)}}
-      own(a) == IF Cardinality(fits(a)) = 1 THEN CHOOSE b \in fits(a) : TRUE ELSE 0
-      expected(s) == LET sq == SeqOfSet(s)
-                     IN DeleteA(InsertAllPh(S, RP, I, [j \in DOMAIN sq |-> ms[sq[j]]], [j \in DOMAIN sq |-> own(sq[j])], ret, rall),
-                                UNION {DelSet(ms[sq[j]], ret, rall) : j \in DOMAIN sq})
+      \* which block belongs to which replaced match is not observable: every injective assignment of fitting blocks is tried
+      \* (the selection itself is not observable either when nothing is deleted: every selection of the right size is tried)
+      assigns(c) == IF Cardinality(c) > 4 \/ e.nblocks > 6
+                    THEN (IF \A a \in c : Cardinality(fits(a)) = 1 THEN {[a \in c |-> CHOOSE b \in fits(a) : TRUE]} ELSE {})
+                    ELSE {f \in [c -> 1..e.nblocks] : (\A a \in c : f[a] \in fits(a)) /\ (\A a, b \in c : a # b => f[a] # f[b])}
+      toobig(c) == (Cardinality(c) > 4 \/ e.nblocks > 6) /\ \E a \in c : Cardinality(fits(a)) > 1
+      expectedF(c, f) == LET sq == SeqOfSet(c)
+                         IN DeleteA(InsertAllPh(S, RP, I, [j \in DOMAIN sq |-> ms[sq[j]]], [j \in DOMAIN sq |-> f[sq[j]]], ret, rall),
+                                    UNION {DelSet(ms[sq[j]], ret, rall) : j \in DOMAIN sq})
       \* nearest images are the right images only while every inserted atom is closer to its anchor than half a cell width
       \* (each inserted atom is imaged next to the search-pattern atom it is closest to in the pattern; first such atom)
       near2 == {LET ds == {D2(RP.atoms[r].pos, SP.atoms[i].pos) : i \in DOMAIN SP.atoms} IN CHOOSE x \in ds : \A y \in ds : x <= y : r \in I}
@@ -245,34 +250,39 @@ JudgeReplaceUnd(e) ==
      ELSE IF e.count \notin sizes THEN "replaced-count-is-nearest-integer"
      ELSE IF sels = {} THEN "only-selected-matches-are-replaced"
      ELSE IF e.ignore # "yes" /\ \A s \in sels : overlap(s) THEN "overlap-not-refused"
-     ELSE LET s == IF \E c \in sels : NormBag(expected(c)) = NormBag(Y) THEN CHOOSE c \in sels : NormBag(expected(c)) = NormBag(Y)
-                   ELSE CHOOSE c \in sels : TRUE
-              X == expected(s)
-              NX == NormA(X)
-              NY == NormA(Y)
-          IN IF e.ignore = "yes" /\ overlap(s) THEN "ok"
-             ELSE IF e.nblocks # Cardinality(s) THEN "which-atoms-removed-and-inserted"
-             ELSE IF \E a \in s : fits(a) = {} THEN "inserted-atoms-placement"
-             ELSE IF \E a \in s : Cardinality(fits(a)) > 1 THEN "blocked:pose-underdetermined-and-blocks-ambiguous"
-             ELSE IF \E a, c \in s : a # c /\ own(a) = own(c) THEN "inserted-atoms-placement"
-             ELSE IF S.cell # <<>> /\ \E g \in Range(e.und) : g.inside # "yes" THEN "inserted-inside-cell"
-             ELSE IF Len(Y.atoms) # Len(X.atoms) THEN "atom-count"
-             ELSE IF SeqToBag([i \in DOMAIN Y.atoms |-> Y.atoms[i].id]) # SeqToBag([i \in DOMAIN X.atoms |-> X.atoms[i].id]) THEN "which-atoms-removed-and-inserted"
-             ELSE IF {Key(r) : r \in Range(Y.atoms)} # {Key(r) : r \in Range(X.atoms)} THEN
-                  (IF {Key(r) : r \in {r \in Range(Y.atoms) : r.id \notin ids}} # {Key(r) : r \in {r \in Range(X.atoms) : r.id \notin ids}}
-                   THEN "bystander-position" ELSE "which-atoms-removed-and-inserted")
-             ELSE IF SeqToBag(Y.atoms) # SeqToBag(X.atoms) THEN
-                  (IF \A r \in Range(Y.atoms) : \E q \in Range(X.atoms) : Key(r) = Key(q) /\ r.ty = q.ty THEN "atoms-data"
-                   ELSE IF \E r \in Range(Y.atoms) : \A q \in Range(X.atoms) : Key(r) = Key(q) => r.ty.el # q.ty.el THEN "atoms-element"
-                   ELSE "atoms-type-meaning")
-             ELSE IF \E k \in Kinds : Y.cnt[k] # Cardinality(Y.terms[k]) THEN "term-listed-twice"
-             ELSE IF NY.terms["bond"] # NX.terms["bond"] THEN "bonds"
-             ELSE IF NY.terms["angle"] # NX.terms["angle"] THEN "angles"
-             ELSE IF NY.terms["dihedral"] # NX.terms["dihedral"] THEN "dihedrals"
-             ELSE IF NY.terms["improper"] # NX.terms["improper"] THEN "impropers"
-             ELSE IF Y.cell # X.cell THEN "cell"
-             ELSE IF ~ConsistentA(Y) THEN "consistent"
-             ELSE "ok"
+     ELSE LET Compare(X) ==
+                LET NX == NormA(X)   NY == NormA(Y)
+                IN IF Len(Y.atoms) # Len(X.atoms) THEN "atom-count"
+                   ELSE IF SeqToBag([i \in DOMAIN Y.atoms |-> Y.atoms[i].id]) # SeqToBag([i \in DOMAIN X.atoms |-> X.atoms[i].id]) THEN "which-atoms-removed-and-inserted"
+                   ELSE IF {Key(r) : r \in Range(Y.atoms)} # {Key(r) : r \in Range(X.atoms)} THEN
+                        (IF {Key(r) : r \in {r \in Range(Y.atoms) : r.id \notin ids}} # {Key(r) : r \in {r \in Range(X.atoms) : r.id \notin ids}}
+                         THEN "bystander-position" ELSE "which-atoms-removed-and-inserted")
+                   ELSE IF SeqToBag(Y.atoms) # SeqToBag(X.atoms) THEN
+                        (IF \A r \in Range(Y.atoms) : \E q \in Range(X.atoms) : Key(r) = Key(q) /\ r.ty = q.ty THEN "atoms-data"
+                         ELSE IF \E r \in Range(Y.atoms) : \A q \in Range(X.atoms) : Key(r) = Key(q) => r.ty.el # q.ty.el THEN "atoms-element"
+                         ELSE "atoms-type-meaning")
+                   ELSE IF \E k \in Kinds : Y.cnt[k] # Cardinality(Y.terms[k]) THEN "term-listed-twice"
+                   ELSE IF NY.terms["bond"] # NX.terms["bond"] THEN "bonds"
+                   ELSE IF NY.terms["angle"] # NX.terms["angle"] THEN "angles"
+                   ELSE IF NY.terms["dihedral"] # NX.terms["dihedral"] THEN "dihedrals"
+                   ELSE IF NY.terms["improper"] # NX.terms["improper"] THEN "impropers"
+                   ELSE IF Y.cell # X.cell THEN "cell"
+                   ELSE IF ~ConsistentA(Y) THEN "consistent"
+                   ELSE "ok"
+              VerdictOf(c) ==
+                IF e.ignore = "yes" /\ overlap(c) THEN "ok"
+                ELSE IF e.ignore # "yes" /\ overlap(c) THEN "overlap-not-refused"
+                ELSE IF e.nblocks # Cardinality(c) THEN "which-atoms-removed-and-inserted"
+                ELSE IF toobig(c) THEN "blocked:pose-underdetermined-and-blocks-ambiguous"
+                ELSE IF assigns(c) = {} THEN "inserted-atoms-placement"
+                ELSE IF S.cell # <<>> /\ \E g \in Range(e.und) : g.inside # "yes" THEN "inserted-inside-cell"
+                ELSE IF \E f \in assigns(c) : Compare(expectedF(c, f)) = "ok" THEN "ok"
+                ELSE Compare(expectedF(c, CHOOSE f \in assigns(c) : TRUE))
+          IN IF \E c \in sels : VerdictOf(c) = "ok" THEN "ok"
+             ELSE IF \E c \in sels : VerdictOf(c) = "blocked:pose-underdetermined-and-blocks-ambiguous" THEN "blocked:pose-underdetermined-and-blocks-ambiguous"
+             \* report the verdict of a selection that at least has a fitting block for every match, if there is one
+             ELSE IF \E c \in sels : ~overlap(c) /\ assigns(c) # {} THEN VerdictOf(CHOOSE c \in sels : ~overlap(c) /\ assigns(c) # {})
+             ELSE VerdictOf(CHOOSE c \in sels : TRUE)
 
 JudgeReplace(e) ==
   LET v == JudgeReplaceExact(e)
